@@ -85,6 +85,28 @@ CHECKS["C04"] = dict(
     parts=[rapid_part("rapid", "compose", "TestC04", 3000, 30000, replay_test="TestC04Replay")],
 )
 
+HIST_RULE = ("rapid draws a GraphSpec (pregel / all-predecessor / workflow, nested, optional state with handlers and ProcessState), interrupt-before and "
+             "interrupt-after sets for every nesting level, nodes that ask for interrupt-and-rerun (with the documented pre-handler pattern), a cyclic list of call "
+             "paradigms and of 'resume on a freshly compiled runnable' flags; the history is driven through a byte-only store until a call returns without interrupt; ")
+
+CHECKS["C05"] = dict(
+    technique="property-based testing (rapid) over interrupt/resume histories; metamorphic oracle: interrupted+resumed history == uninterrupted run (output, executions, state)",
+    level_text="Generated histories: every interrupting call is followed by a resume (Invoke or Stream, same or freshly compiled runnable, byte-only checkpoint store) until the run completes. Oracle: final output equals that of the same graph compiled without interrupt configuration; the multiset (and in Pregel/invoke histories the per-node sequence) of (node, input) executions over all calls, minus aborted rerun attempts, equals the uninterrupted one; state counters equal. Failures shrink to a minimal graph + interrupt set + call list.",
+    level_note="Only graphs whose uninterrupted run completes are asserted (others are counted and skipped). Nodes not leading to END in all-predecessor graphs are ignored in the comparison. The step budget is per call, as in the code.",
+    rule=HIST_RULE + "non-trivial = >= 2 interrupts and one of: interrupt inside a nested graph, a rerun node, mixed paradigms across calls, a loop through an interrupt point or nested graph, fan-in with values parked in a channel; distinct = FNV-1a of case JSON",
+    assumptions=GRAPH_ASSUME,
+    parts=[rapid_part("rapid", "compose", "TestC05", 1500, 12000, replay_test="TestC05Replay", replay_reps=30)],
+)
+
+CHECKS["C06"] = dict(
+    technique="property-based testing (rapid) over interrupt/resume histories; oracle: invariants over the recorded history (licence-to-run, stop-after, info completeness, checkpoint written iff interrupt)",
+    level_text="The same generated histories as C05, judged by history invariants: an interrupt-before node never starts more often than earlier interrupts reported it (also as first node after START, behind branches, nested, in eager mode); when an interrupt-after node completes in an interrupted call the info lists it at the right nesting level and nothing consuming its output starts later in that call; every interrupt error yields InterruptInfo (state present for stateful graphs, rerun nodes listed); the store receives exactly one Set in a call that returns an interrupt with an id and none otherwise (also without id).",
+    level_note="Observation is through instrumented lambda bodies (start/end events with inputs/outputs); pass-through and graph nodes configured as interrupt points are exercised but only judged through the lambdas around them.",
+    rule=HIST_RULE + "non-trivial = >= 1 interrupt with an honoured before/after point and one of: before-node directly after START, nested interrupt, workflow (eager) mode, graph with branches; distinct = FNV-1a of case JSON",
+    assumptions=GRAPH_ASSUME,
+    parts=[rapid_part("rapid", "compose", "TestC06", 1500, 12000, replay_test="TestC06Replay", replay_reps=10)],
+)
+
 # properties not claimed (with reason); everything else not in CHECKS is "not built yet"
 NOT_APPLICABLE = {}
 
